@@ -107,6 +107,11 @@ def temporal_dag(G, u, v=None, start=None, end=None):
                         an = f"{an}_{tid}"
                         sources[an] = None
 
+                if n == an:
+                    # a self-loop of the root: its occurrence is a source, not its own successor (the DAG stays acyclic)
+                    DG.add_node(an)
+                    continue
+
                 DG.add_edge(an, n)
                 to_add.append(n)
 
